@@ -658,10 +658,9 @@ def SegmentAligned (d : Defs) (path : Path) : Prop := matchRoute .cur d path = m
 instance (d : Defs) (path : Path) : Decidable (SegmentAligned d path) := by
   unfold SegmentAligned; exact inferInstance
 
-/-- an atom that has to be there: anything but an optional param and the empty static -/
+/-- an atom that has to be there: anything but an optional param -/
 def FSeg.mandatory : FSeg → Bool
   | .opt _ => false
-  | .st s => !s.isEmpty
   | _ => true
 
 mutual
